@@ -145,6 +145,23 @@ theorem C01_root_stays_active (env : Env σ) (d : Doc) (hroot : parentOf d d.roo
   (C01_microstep_configuration env d s ts d.root).2 (Or.inl ⟨h, C01_root_never_exited d s.hv s.cfg ts hroot⟩)
 #assert_axioms C01_root_stays_active
 
+/-- … hence for every document whose start-up entry set contains the root (a closed, decidable fact
+    about the document alone: `computeEntrySet d [] (rootInit d)`, see the `example` for `exDoc1`
+    below) the root is active in EVERY reachable session — the first clause of `legalB` as an
+    invariant of whole runs -/
+theorem C01_root_active (env : Env σ) (d : Doc) (hroot : parentOf d d.root = 0)
+    (h0 : d.root ∈ (computeEntrySet d [] (rootInit d)).toEnter) (s : Sess σ) (hr : Reach env d s) :
+    d.root ∈ s.cfg := by
+  induction hr with
+  | start s0 hcfg hhv =>
+    have hs := enterStates_spec env d s0 (rootInit d)
+    exact (hs.1 d.root).2 (Or.inr (by rw [hhv]; exact h0))
+  | same _ hcfg _ ih => rw [hcfg]; exact ih
+  | @micro s ev _ ih =>
+    have hsc := select_sameCore env d ev s
+    exact C01_root_stays_active env d hroot _ _ (by rw [hsc.1]; exact ih)
+#assert_axioms C01_root_active
+
 /-- **no state is exited while a state below it is still active**: in the order in which
     `exitStates` processes the exit set (reverse document order, `C02_exit_order`), every exited
     descendant of a state stands before that state — together with `C01_exit_descendant_closed`:
@@ -212,6 +229,8 @@ example : conformantB exDoc1 = true := by decide
 example : legalB exDoc1 [1, 2, 3, 4, 5, 6] = true := by decide
 example : legalB exDoc1 [1, 2, 3, 4] = false := by decide      -- a parallel child is missing
 example : (computeEntrySet exDoc1 [] [20]).toEnter = [2, 3, 4, 5, 6, 1] := by decide
+-- hypotheses of C01_root_active for exDoc1
+example : parentOf exDoc1 exDoc1.root = 0 ∧ exDoc1.root ∈ (computeEntrySet exDoc1 [] (rootInit exDoc1)).toEnter := by decide
 -- hypotheses of C01_exit_descendant_closed: transition 10 (4 → 7) exits the parallel 2 and, with it, 6 below it
 example : 2 ∈ computeExitSet exDoc1 [] [1, 2, 3, 4, 5, 6] [10] ∧ isDescendant exDoc1 6 2 = true ∧
     6 ∈ computeExitSet exDoc1 [] [1, 2, 3, 4, 5, 6] [10] := by decide
